@@ -36,7 +36,7 @@ func init() {
 			{Name: "testing/nonprod/memkm + sign/nonprod signer", Kind: "real", Note: "hook H3: keys from a fixed pool"},
 			{Name: "object store", Kind: "stub", Note: "SimDisk"},
 		},
-		Budget: core.StdBudget(240, 100*time.Second, 40000, 25*time.Minute),
+		Budget: core.StdBudget(240, 100*time.Second, 40000, 9*time.Minute),
 		Body:   runC11,
 	})
 }
